@@ -18,7 +18,7 @@ def check(ctx: Ctx) -> None:
     repo = ctx.repo
     ctx.decides = ("EOF on the connection reaches _terminate_execution; the escalation ladder pool-shutdown -> bounded wait -> SIGINT/interrupt_main -> "
                    "bounded wait -> os._exit is on every path where the waits fail, with a folded time budget <= 15 s; serve() swallows KeyboardInterrupt "
-                   "and joins; the primary loop leaves on shutdown; worker threads are started daemonic (_thread.start_new_thread); user callbacks cannot abort the epilogue.")
+                   "and joins; the primary loop leaves on shutdown (flag sampled under the pool lock, C11.g = C09.d); worker threads are started daemonic (_thread.start_new_thread); user callbacks cannot abort the epilogue.")
     ctx.not_decided = "what the OS does to the pipe when the initiator dies; real timing; what arbitrary worker code does with signals."
     f_recv = repo.func(f"{GB}.BaseGateway._thread_receiver")
     f_term = repo.func(f"{GB}.WorkerGateway._terminate_execution")
